@@ -222,7 +222,7 @@ def main():
     os.makedirs(os.path.join(VERIF, 'replays'), exist_ok=True)
 
     # --- 1. theorems
-    judge_targets = ['theories/Judge/%s_judge.vo' % prop]
+    judge_targets = ['theories/Judge/%s_judge.vo' % getattr(mod, 'JUDGE', prop)]
     okj, logj = make(judge_targets)
     if not okj:
         print(logj[-4000:])
